@@ -120,8 +120,8 @@ class FiltersSet:
             ":flags": "imap4flags",
             ":seconds": "vacation-seconds",
         }
-        if isinstance(arg, str) and arg in args_using_extensions:
-            self.require(args_using_extensions[arg])
+        if isinstance(arg, str) and arg.lower() in args_using_extensions:
+            self.require(args_using_extensions[arg.lower()])
 
     def __gen_require_command(self) -> Union[commands.Command, None]:
         """Internal method to create a RequireCommand based on requirements
